@@ -42,14 +42,23 @@ def bounded(tier, seed, stop_first=False):
 
 def replay_search(obligation, qual, seed, tier):
     """a concrete generated program violating the clause behind a failed site obligation of the proof part (named
-    .../inv[J1..J6]), preferably one whose offending object was constructed by the function `qual`"""
+    .../inv[J1..J6]), preferably one whose offending object was constructed by the function `qual`.  Searches the
+    thorough plan restricted to the generations on which the clause says something, for a limited time."""
     ref = _load()
-    want = 'bounded['
-    for tag, kind in (('J1', 'usv:'), ('J2', 'usc:'), ('J3', 'btp:'), ('J4', 'pf:'), ('J5', 'decl:'), ('J6', 'fun:')):
+    want, switch = 'bounded[', None
+    for tag, kind in (('J1', 'usv'), ('J2', 'usc'), ('J3', 'btp'), ('J4', 'pf'), ('J5', 'decl'), ('J6', 'fun')):
         if obligation and ('inv[%s]' % tag) in obligation:
-            want = 'bounded[' + kind
-    site = qual if want[8:] in ('usv:', 'usc:', 'btp:') else None
-    r = ref.run(tier, seed, stop_first=True, stop_prefix=want, stop_function=site)
+            want, switch = 'bounded[%s:' % kind, kind
+    site = qual if switch in ('usv', 'usc', 'btp') else None
+
+    def only(lang, s, key, via_cli):
+        if switch in ref.SWITCHES:
+            return ref.combo_of(key)[switch]
+        if switch == 'decl':
+            return lang in ref.NO_DECL_SITE_VARIANCE
+        return True
+    r = ref.run('thorough', seed, stop_first=True, stop_prefix=want, stop_function=site, only=only,
+                deadline=30 if tier == 'quick' else 600)
     v = [x for x in (r.get('violations') or []) if x['check'].startswith(want)]
     exact = [x for x in v if site and x.get('function') == site]
     return (exact or v or [None])[0]
